@@ -5,6 +5,8 @@ import PdbVerif.Model.Table
 import PdbVerif.Model.TableWorld
 import PdbVerif.Model.TableJoin
 import PdbVerif.Model.TableWorldText
+import PdbVerif.Model.MicroSql
+import PdbVerif.Gen.Sql
 
 namespace Driver.ModelB
 open Lean Driver Driver.B Tbl
@@ -35,6 +37,72 @@ def runWorld (w : Model.World) : List WOp → List Json
   | op :: rest =>
     let (w', out) := Model.wstep Model.textRoundtrip w op
     Json.mkObj [("out", outJ out), ("objs", worldJ w')] :: runWorld w' rest
+
+/-! ### the translated SQL builders (Gen/Sql.lean) and MicroSql: the text and the bound values the library must send -/
+
+def gerrJ : GenSql.Err → Json
+  | .valueError m => .str (if m = "Too many SQL variables" then "ERR:ValueError:TooManyVars" else "ERR:ValueError")
+  | .typeError => "ERR:TypeError"
+  | .indexError => "ERR:IndexError"
+
+def stmtJ (text : Py.Str) (vals : List Val) : Json := Json.mkObj [("text", strJ text), ("vals", .arr (vals.map valJ).toArray)]
+
+def manyJ (text : Py.Str) (rows : List (List Val)) : Json :=
+  Json.mkObj [("text", strJ text), ("rows", .arr (rows.map (fun r => Json.arr (r.map valJ).toArray)).toArray)]
+
+def intsOf (j : Json) (k : String) : Except String (List Int) := do (← jArr j k).toList.mapM asInt
+
+def sqlOp (name : String) (j : Json) : Except String (Option Json) := do
+  match name with
+  | "sql_get" =>                       -- what `get` hands to `self.c.execute` on the non-chunked path
+    let columns ← strOf j "columns"; let tn ← strOf j "tn"; let kw ← kwsOfJson j "kw"
+    if kw.isEmpty then pure (some (stmtJ (GenSql.get_nokw columns tn) []))
+    else pure (some (match GenSql.get_query columns tn kw with
+      | .error e => gerrJ e
+      | .ok (.ret _) => "CHUNKED"
+      | .ok (.cont (text, vals)) => stmtJ text vals))
+  | "sql_rows_step" =>                 -- one turn of the final loop of the chunked path
+    let r := GenSql.get_rows_step (← strOf j "columns") (← strOf j "tn") (← intsOf j "rows") (← jInt j "i") (← jInt j "size")
+    pure (some (stmtJ r.1 (r.2.map Val.int)))
+  | "sql_format" =>                    -- `_format_get_output`
+    let data ← (← jArr j "data").toList.mapM valsOfJson
+    pure (some (match GenSql.format_get_output data (← strOf j "columns") with
+      | .error e => gerrJ e
+      | .ok items => itemsJ items))
+  | "sql_update" =>                    -- what `update` hands to `self.c.executemany`
+    let cols ← (← jArr j "columns").toList.mapM (fun x => do let s ← asStr x; pure s.toList)
+    let values ← (← jArr j "values").toList.mapM valsOfJson
+    pure (some (match GenSql.update_exec (← strOf j "tn") cols values (← intsOf j "rowID") with
+      | .error e => gerrJ e
+      | .ok (text, rows) => manyJ text rows))
+  | "sql_update_column" =>
+    let values ← valsOfJson (.arr (← jArr j "values"))
+    let index ← match j.getObjVal? "index" with
+      | .ok (.arr a) => (do let l ← a.toList.mapM valOfJson; pure (some l))
+      | _ => pure none
+    pure (some (match GenSql.update_column_exec (← strOf j "colname") values index (← strOf j "tn") with
+      | .error e => gerrJ e
+      | .ok (text, rows) => manyJ text rows))
+  | "sql_add_column" =>                -- `str(value)` travels with the case (Python's `str` is a parameter of the translation)
+    let v ← valOfJson (← j.getObjVal? "value")
+    let vs ← strOf j "value_str"
+    pure (some (strJ (GenSql.add_column_exec (fun _ => vs) (← strOf j "colname") (← strOf j "coltype") v (← strOf j "tn"))))
+  | "sql_query" =>                     -- MicroSql on a statement text the real code sent
+    let db ← dbOfJson (← j.getObjVal? "db")
+    let params ← valsOfJson (.arr (← jArr j "params"))
+    pure (some (match MicroSql.query db (← strOf j "text") params with
+      | .error e => errJ e
+      | .ok rows => .arr (rows.map (fun r => Json.arr (r.map valJ).toArray)).toArray))
+  | "sql_executemany" =>
+    let db ← dbOfJson (← j.getObjVal? "db")
+    let rows ← (← jArr j "rows").toList.mapM valsOfJson
+    let r := MicroSql.executemany db (← strOf j "text") rows
+    pure (some (Json.mkObj [("out", outJ r.2), ("db", dbJ r.1)]))
+  | "sql_alter" =>
+    let db ← dbOfJson (← j.getObjVal? "db")
+    let r := MicroSql.execAlter db (← strOf j "text")
+    pure (some (Json.mkObj [("out", outJ r.2), ("db", dbJ r.1)]))
+  | _ => pure none
 
 def op (name : String) (j : Json) : Except String (Option Json) := do
   match name with
@@ -81,6 +149,6 @@ def op (name : String) (j : Json) : Except String (Option Json) := do
     let objs ← (← jArr j "objs").toList.mapM objOfJson
     let ops ← (← jArr j "ops").toList.mapM wopOfJson
     pure (some (.arr (runWorld objs ops).toArray))
-  | _ => pure none
+  | _ => sqlOp name j
 
 end Driver.ModelB
